@@ -135,4 +135,22 @@ example :
       (fun i => if i = 0 then .eof else .ok) (fun _ => false)
     (o.tried.map (·.conn), o.removed.map (·.uid), o.failed) = ([0, 1, 2], [7], true) := by decide
 
+/-! ### what a loop that stops at the first failure would skip (seeded changes C13m, C14j) -/
+
+/-- the loop with `return err` in the place of `ret = err` -/
+def loopStop (send : Nat → SendRes) : List User → Nat → List User → List User
+  | [], _, tried => tried
+  | u :: r, i, tried =>
+    match send i with
+    | .ok => loopStop send r (i + 1) (tried ++ [u])
+    | _ => tried ++ [u]
+
+/-- three users of the signal; the one in the middle cannot be written to: the third is never sent to, although
+    nothing is wrong with it — with the loop as it is all three are tried (`every_user_is_sent_to`) -/
+theorem stopping_at_the_first_failure_skips_the_rest :
+    let us : List User := [⟨7, 200, 0⟩, ⟨9, 200, 1⟩, ⟨10, 200, 2⟩]
+    let send : Nat → SendRes := fun i => if i = 1 then .err else .ok
+    (loopStop send us 0 []).map (·.conn) = [0, 1] ∧
+      (updateSignal us 200 send (fun _ => true)).tried.map (·.conn) = [0, 1, 2] := by decide
+
 end QiVerif.UpdateLoop
